@@ -170,7 +170,8 @@ func compileObs(src string, mask int, envs []Env) M {
 	return o
 }
 
-var strangeStrings = []string{"a  b", "a(b", "a)b", "a;b", " a", "a ", "(", ";", "a\tb", "a b", "[x]", "a,b", "  ", "x; y\n z"}
+var strangeStrings = []string{"a  b", "a(b", "a)b", "a;b", " a", "a ", "(", ";", "a\tb", "a b", "[x]", "a,b", "  ", "x; y\n z",
+	"a\\", "\\", "C:\\", "\\\\", "a\\b", "", "é  é", ")(", ";;;; optimize:false"}
 
 func famLayout() {
 	r := rand.New(rand.NewSource(*fSeed))
@@ -218,6 +219,16 @@ func famLayout() {
 		}
 		emitFmt(concretise(m))
 	}
+	// (a3) every ordered pair of layout-sensitive literals side by side (what one literal does to the
+	// formatter's / lexer's state decides how the next one is treated)
+	for _, s1 := range strangeStrings {
+		for _, s2 := range strangeStrings {
+			emitFmt("(f \"" + s1 + "\" \"" + s2 + "\")")
+			if r.Intn(4) == 0 {
+				emitFmt("(= s \"" + s1 + "\") ; c \"" + s2 + "\"\n(g \"" + s2 + "\")")
+			}
+		}
+	}
 	// (b) valid expressions with layout-sensitive string literals, re-laid-out
 	g := &gen{r: r, c: GenCfg{Custom: true, Alias: true, MaxKids: 4, Lists: true, Strings: true, Consts: true}}
 	for i := 0; i < *fN/4; i++ {
@@ -229,6 +240,9 @@ func famLayout() {
 		if r.Intn(2) == 0 {
 			lit := strangeStrings[r.Intn(len(strangeStrings))]
 			t = op("and", op("=", vr("s"), cst(lit)), t)
+			if r.Intn(2) == 0 {
+				t = op("and", op("in", vr("s"), cst([]string{strangeStrings[r.Intn(len(strangeStrings))], lit})), t)
+			}
 		}
 		src := t.Src()
 		if seen[src] {
